@@ -6,7 +6,7 @@ from harness import core, gen, common
 
 ID = 'C13'
 LEAN_TARGETS = ['Props.C13']
-TIE_A = ['g3c_rotor_between_planes_eq', 'g3c_rotor_roots_eq']
+TIE_A = ['g3c_rotor_between_planes_eq', 'g3c_rotor_roots_eq', 'val_exp_eq']
 OBLIGATIONS = ['C13.intertwining', 'C13.rotor_carries', 'C13.translation_fixes_einf', 'C13.rotor_between_objects_positive_root',
                'C13.rotor_between_objects_scalar_sigma', 'C13.positive_root_squares', 'C13.square_root_of_rotor',
                'C13.sigma_is_scalar_plus_pseudovector', 'C13.reverse_of_C', 'C13.rotor_between_objects_g3c']
